@@ -3,6 +3,8 @@
 Every (type, datum, mode) of the MATRIX space is executed; whatever escapes must be a LoadError, and every leaf of
 an escaping exception group must be a LoadError again.
 """
+from decimal import Decimal
+
 from adaptix.load_error import LoadError
 
 from mc import codec, parallel
@@ -84,6 +86,10 @@ def oracle(ctx):
         if cls == "TypeError" and str(leaf).startswith("unhashable type") and bts[0] in SET_LIKE \
                 and unwrap(bts[1])[0] == "Literal":
             sig = {"check": "C04.types", "cause": "unhashable_lookalike_of_literal_member_into_set", "exc": cls}
+        if cls == "InvalidOperation" and bts[0] == "Literal" and type(bd) is Decimal and bd.is_snan():
+            sig = {"check": "C04.types", "cause": "signaling_nan_compared_with_literal_members", "exc": cls}
+        if cls == "TypeError" and str(leaf).startswith("Cannot hash a signaling NaN") and bts[0] in SET_LIKE:
+            sig = {"check": "C04.types", "cause": "signaling_nan_into_set", "exc": cls}
         report.violation(
             sig,
             f"load {show(ts)} <- {datum.name} [{mode_name(mode)}]: escaping {type(out.exc).__name__}"
